@@ -55,6 +55,14 @@ type Harness struct {
 	hung   map[string]bool
 	before runtime.MemStats
 	after  runtime.MemStats
+	cpuBy  map[string]time.Duration // per entry point: CPU time of the calls (incl. oracle overhead)
+}
+
+// Report adds the per-entry CPU totals to the counters (call once, when the body is done).
+func (h *Harness) Report() {
+	for e, d := range h.cpuBy {
+		h.c.Count("cpu_ms:"+e, int(d.Milliseconds()))
+	}
 }
 
 func cpuTime() time.Duration {
@@ -67,7 +75,7 @@ func cpuTime() time.Duration {
 
 // New creates the harness of this child process and starts its watchdog goroutine.
 func New(c *mon.Ctx) *Harness {
-	h := &Harness{c: c, hung: map[string]bool{}}
+	h := &Harness{c: c, hung: map[string]bool{}, cpuBy: map[string]time.Duration{}}
 	if f := flag.Lookup("out"); f != nil && f.Value.String() != "" && !c.Replay() {
 		h.dir = filepath.Dir(f.Value.String())
 	}
@@ -190,6 +198,7 @@ func (h *Harness) Call(k *mon.Case, entry, class string, input []byte, fn func()
 		res.Skipped = true
 		return
 	}
+	cpu0 := cpuTime()
 	k.Stage(input)
 	k.Eval(1)
 	k.Count("calls:"+entry, 1)
@@ -216,6 +225,7 @@ func (h *Harness) Call(k *mon.Case, entry, class string, input []byte, fn func()
 	h.cur.Store(nil)
 	res.CPU = cpuTime() - a.cpu
 	runtime.ReadMemStats(&h.after)
+	h.cpuBy[entry] += cpuTime() - cpu0
 	res.Alloc = h.after.TotalAlloc - h.before.TotalAlloc
 	if bound := uint64(AllocPerByte)*uint64(len(input)) + AllocConst; res.Alloc > bound {
 		k.Violation("alloc:"+entry, fmt.Sprintf("call allocated %d bytes for an input of %d bytes (bound %d*len+%d)", res.Alloc, len(input), AllocPerByte, AllocConst),
